@@ -18,6 +18,8 @@ use serde_json::json;
 #[derive(Clone, Debug, PartialEq, Eq)]
 pub enum T {
     Leaf(String),
+    /// identifier with accessors: fields (Ok) and indices (Err, canonical decimal)
+    Acc(String, Vec<Result<String, String>>),
     /// integer literal, canonical decimal text
     Int(String),
     /// binary literal, lower-case hex of the bytes
@@ -34,6 +36,11 @@ impl T {
     pub fn sx(&self) -> String {
         match self {
             T::Leaf(n) => format!("(l {})", hx(n)),
+            T::Acc(n, p) => format!(
+                "(a {}{})",
+                hx(n),
+                p.iter().map(|a| match a { Ok(f) => format!(" (f {})", hx(f)), Err(i) => format!(" (x {i})") }).collect::<String>()
+            ),
             T::Int(d) => format!("(i {d})"),
             T::Str(v) => format!("(s {})", hx(v)),
             T::Chain(ts) => format!("(c{})", ts.iter().map(|t| format!(" {}", t.sx())).collect::<String>()),
@@ -56,6 +63,7 @@ impl T {
     pub fn flat(&self) -> String {
         match self {
             T::Leaf(n) => n.clone(),
+            T::Acc(n, p) => format!("{n}{}", p.iter().map(|a| match a { Ok(f) => format!(".{f}"), Err(i) => format!(".{i}") }).collect::<String>()),
             T::Int(d) => d.clone(),
             T::Bin(h) => format!("0x{h}"),
             T::Str(v) => format!("\"{}\"", escape_single(v)),
@@ -80,6 +88,16 @@ impl T {
     pub fn layout(&self, r: &mut Rng) -> String {
         match self {
             T::Leaf(n) => n.clone(),
+            // an index with leading zeros is the same index
+            T::Acc(n, p) => format!(
+                "{n}{}",
+                p.iter()
+                    .map(|a| match a {
+                        Ok(f) => format!(".{f}"),
+                        Err(i) => format!(".{}{i}", if r.chance(1, 4) { "00" } else { "" }),
+                    })
+                    .collect::<String>()
+            ),
             // leading zeros and `-0` read as the same integer, upper-case hex as the same bytes
             T::Int(d) => match r.below(6) {
                 0 if d == "0" => "-0".into(),
@@ -273,6 +291,19 @@ pub fn gen_term(r: &mut Rng, depth: usize) -> T {
         return match r.below(8) {
             0 | 1 => T::Tup(Some(tuple_name(r)), vec![]),
             2 => T::Int(int_text(r)),
+            3 if r.chance(1, 2) => {
+                let n = 1 + r.usize(3);
+                T::Acc(
+                    name(r),
+                    (0..n)
+                        .map(|_| match r.below(5) {
+                            0 | 1 => Ok(name(r)),
+                            2 => Err("18446744073709551615".to_string()),
+                            _ => Err(format!("{}", r.below(1000))),
+                        })
+                        .collect(),
+                )
+            }
             3 => T::Str(str_value(r)),
             4 => T::Bin(bin_text(r)),
             _ => T::Leaf(name(r)),
@@ -308,6 +339,16 @@ fn term_of(t: &Term) -> Option<T> {
         Term::Literal(Literal::Binary(bytes)) => Some(T::Bin(bytes.iter().map(|b| format!("{b:02x}")).collect())),
         Term::Access(a) => match (&a.source, a.accessors.is_empty()) {
             (Some(AccessSource::Identifier(n)), true) => Some(T::Leaf(n.clone())),
+            (Some(AccessSource::Identifier(n)), false) => Some(T::Acc(
+                n.clone(),
+                a.accessors
+                    .iter()
+                    .map(|p| match p {
+                        quiver_compiler::ast::AccessPath::Field(f) => Ok(f.clone()),
+                        quiver_compiler::ast::AccessPath::Index(i) => Err(i.to_string()),
+                    })
+                    .collect(),
+            )),
             _ => None,
         },
         Term::Tuple(tu) => {
